@@ -236,7 +236,7 @@ func TestC14_Constructors(t *testing.T) {
 		// bytes lacking a supported action or that action's value member are not a patch
 		b, _ := p.Bytes()
 		m := mustObj(string(b))
-		mut := rapid.IntRange(0, 4).Draw(t, "mut")
+		mut := rapid.IntRange(0, 6).Draw(t, "mut")
 		label := ""
 		switch mut {
 		case 0:
@@ -259,6 +259,18 @@ func TestC14_Constructors(t *testing.T) {
 				}
 			}
 			label = "value-under-wrong-key"
+		case 5:
+			// the action member only under a name in another letter case: that is not the member
+			v := m["action"]
+			delete(m, "action")
+			m[rapid.SampledFrom([]string{"Action", "ACTION", "aCtion", "action "}).Draw(t, "actionCase")] = v
+			label = "action-in-other-case"
+		case 6:
+			k := valueKeyOf[action]
+			v := m[k]
+			delete(m, k)
+			m[rapid.SampledFrom([]string{strings.ToUpper(k[:1]) + k[1:], strings.ToUpper(k), k + " "}).Draw(t, "valueCase")] = v
+			label = "value-member-in-other-case"
 		default:
 			m["action"] = float64(1)
 			label = "action-not-string"
